@@ -227,6 +227,34 @@ def rule_d(ctx):
            for c in A.calls_in(f.node))
   ctx.ob('C02.d', f.fq, ok, 'insert(index, value) hands (index, Insertion(value)) to the primitive', f.loc,
          'insert no longer forwards its index/value unchanged')
+  # setdefault returns the STORED value (a plain list/dict default is stored as its
+  # symbolic counterpart; returning the caller's object loses `d.setdefault(k, []).append(x)`)
+  f = idx.lookup_method(S.DICT, 'setdefault')
+  g = C.cfg_of(f.node)
+  problems = []
+  params = [p for p in A.param_names(f.node) if p not in ('self',)]
+  for k in g.nodes:
+    if k.kind != 'return' or k.ast.value is None:
+      continue
+    v = k.ast.value
+    srcs = [v]
+    if isinstance(v, ast.Name):
+      srcs = [val for _, val in D.reaching_defs(g, k, v.id)]
+    for val in srcs:
+      if val is None:
+        problems.append(f'returns the caller\'s `{A.unparse(v)}` itself')
+        continue
+      t = A.unparse(val)
+      reads_storage = any((A.call_name(c) or '') in ('self.sym_getattr', 'self._sym_getattr', 'self.sym_inferred',
+                                                      'self.get', 'super().get', 'dict.get')
+                          for c in A.calls_in(val)) or (isinstance(val, ast.Subscript) and A.unparse(val.value) == 'self')
+      if isinstance(val, ast.Name) and val.id in params:
+        problems.append(f'returns the caller\'s `{val.id}` object, not the value that was stored')
+      elif not reads_storage and 'MISSING_VALUE' not in t:
+        problems.append(f'returns `{t}`, which is not read back from the dict')
+  ctx.ob('C02.d', f.fq, not problems,
+         'setdefault returns the value held by the dict after the call (read back from storage), as dict.setdefault does',
+         f.loc, '; '.join(sorted(set(problems))))
   f = idx.lookup_method(S.LIST, 'append')
   ok = any(A.call_name(c) == 'self._set_item_without_permission_check' and len(c.args) == 2
            and A.unparse(c.args[0]) == 'len(self)' and A.unparse(c.args[1]) == 'value'
